@@ -1512,4 +1512,164 @@ theorem precompute_no_wanted (nC g : Nat) (ntr : List (Nat × Nat))
   have h1 : ¬ nProc = 0 := by omega
   simp [precompute, hf, workSplit, h1, splitLoop, mapMExcept, mergeBuffers]
 
+
+/-! ### the front end `cell name → output row` -/
+
+theorem indexIn_lt (xs : List Nat) (x i : Nat) (h : indexIn xs x = some i) : i < xs.length := by
+  have := indexIn_getElem? xs x i h
+  by_contra hn
+  rw [List.getElem?_eq_none (by omega)] at this
+  exact absurd this (by simp)
+
+theorem lookup_cons_eq (k' a b : Nat) (m : List (Nat × Nat)) :
+    List.lookup k' ((a, b) :: m) = if k' = a then some b else List.lookup k' m := by
+  rw [List.lookup_cons]
+  by_cases h : k' = a
+  · subst h; simp
+  · have : (k' == a) = false := by simpa using h
+    rw [this, if_neg h]
+
+theorem lookup_map_replace (k v k' : Nat) : ∀ (m : List (Nat × Nat)),
+    (m.map (fun p => if p.1 == k then (k, v) else p)).lookup k'
+      = if k' = k then (m.lookup k).map (fun _ => v) else m.lookup k' := by
+  intro m
+  induction m with
+  | nil => simp
+  | cons p m ih =>
+    obtain ⟨a, b⟩ := p
+    by_cases hak : a = k
+    · subst hak
+      have e : (if ((a, b) : Nat × Nat).1 == a then (a, v) else (a, b)) = (a, v) := by simp
+      rw [List.map_cons, e, lookup_cons_eq, ih]
+      by_cases hk : k' = a
+      · subst hk; simp
+      · simp [hk, lookup_cons_eq]
+    · have e : (if ((a, b) : Nat × Nat).1 == k then (k, v) else (a, b)) = (a, b) := by simp [hak]
+      rw [List.map_cons, e, lookup_cons_eq, ih]
+      by_cases hk : k' = k
+      · subst hk
+        have h1 : ¬ k' = a := fun h => hak h.symm
+        simp [h1, lookup_cons_eq]
+      · simp [hk, lookup_cons_eq]
+
+theorem dictSet_lookup (m : List (Nat × Nat)) (k v k' : Nat) :
+    (dictSet m k v).lookup k' = if k' = k then some v else m.lookup k' := by
+  unfold dictSet
+  split
+  · rename_i hany
+    rw [lookup_map_replace]
+    by_cases hk : k' = k
+    · subst hk
+      simp only [if_true]
+      cases hl : m.lookup k' with
+      | some b => rfl
+      | none =>
+        exfalso
+        rw [List.lookup_eq_none_iff] at hl
+        simp only [List.any_eq_true] at hany
+        obtain ⟨p, hp, hpk⟩ := hany
+        have := hl p hp
+        simp only [beq_iff_eq] at hpk
+        simp [hpk] at this
+    · simp [hk]
+  · rename_i hany
+    have hnone : m.lookup k = none := by
+      rw [List.lookup_eq_none_iff]
+      intro p hp
+      simp only [bne_iff_ne, ne_eq]
+      intro hpk
+      apply hany
+      simp only [List.any_eq_true]
+      exact ⟨p, hp, by simp [hpk]⟩
+    rw [List.lookup_append]
+    by_cases hk : k' = k
+    · subst hk; simp [hnone]
+    · simp [hk]
+
+theorem dictSet_vals (m : List (Nat × Nat)) (k v : Nat) (P : Nat → Prop) (hv : P v)
+    (hm : ∀ p ∈ m, P p.2) : ∀ p ∈ dictSet m k v, P p.2 := by
+  intro p hp
+  unfold dictSet at hp
+  split at hp
+  · simp only [List.mem_map] at hp
+    obtain ⟨q, hq, rfl⟩ := hp
+    split
+    · exact hv
+    · exact hm q hq
+  · simp only [List.mem_append, List.mem_singleton] at hp
+    rcases hp with hp | rfl
+    · exact hm p hp
+    · exact hv
+
+theorem foldl_dictSet_vals (r : Nat) (P : Nat → Prop) (hv : P r) :
+    ∀ (cells : List Nat) (m : List (Nat × Nat)), (∀ p ∈ m, P p.2) →
+      ∀ p ∈ cells.foldl (fun m c => dictSet m c r) m, P p.2 := by
+  intro cells
+  induction cells with
+  | nil => intro m hm; simpa using hm
+  | cons c cells ih =>
+    intro m hm
+    exact ih _ (dictSet_vals m c r P hv hm)
+
+theorem foldl_dictSet_lookup (r : Nat) :
+    ∀ (cells : List Nat) (m : List (Nat × Nat)) (k : Nat),
+      (cells.foldl (fun m c => dictSet m c r) m).lookup k
+        = if k ∈ cells then some r else m.lookup k := by
+  intro cells
+  induction cells with
+  | nil => intro m k; simp
+  | cons c cells ih =>
+    intro m k
+    rw [List.foldl_cons, ih, dictSet_lookup]
+    by_cases h1 : k ∈ cells
+    · simp [h1]
+    · by_cases h2 : k = c
+      · simp [h2]
+      · simp [h1, h2]
+
+theorem nameToRowOfTree_go_spec (clusters : List Nat) :
+    ∀ (rest : List (Nat × List Nat)) (acc : List (Nat × Nat)),
+      (∀ q ∈ rest, q.1 ∈ clusters) → (∀ p ∈ acc, p.2 < clusters.length) →
+      ∃ tbl, nameToRowOfTree.go clusters rest acc = .ok tbl ∧
+        (∀ p ∈ tbl, p.2 < clusters.length) ∧
+        (∀ k, (∀ q ∈ rest, k ∉ q.2) → tbl.lookup k = acc.lookup k) ∧
+        (rest.Pairwise (fun a b => ∀ c ∈ a.2, c ∉ b.2) →
+          ∀ q ∈ rest, ∀ k ∈ q.2, tbl.lookup k = indexIn clusters q.1) := by
+  intro rest
+  induction rest with
+  | nil =>
+    intro acc _ hacc
+    exact ⟨acc, rfl, hacc, fun _ _ => rfl, fun _ q hq => by simp at hq⟩
+  | cons q rest ih =>
+    intro acc hmem hacc
+    obtain ⟨cl, cells⟩ := q
+    obtain ⟨r, hr⟩ := indexIn_of_mem clusters cl (hmem (cl, cells) (by simp))
+    have hrlt := indexIn_lt clusters cl r hr
+    obtain ⟨tbl, h1, h2, h3, h4⟩ := ih (cells.foldl (fun m c => dictSet m c r) acc)
+      (fun q hq => hmem q (by simp [hq]))
+      (foldl_dictSet_vals r (· < clusters.length) hrlt cells acc hacc)
+    refine ⟨tbl, by simp only [nameToRowOfTree.go, hr, h1], h2, ?_, ?_⟩
+    · intro k hk
+      rw [h3 k (fun q hq => hk q (by simp [hq])), foldl_dictSet_lookup]
+      have : k ∉ cells := hk (cl, cells) (by simp)
+      simp [this]
+    · intro hpw q hq k hkq
+      rw [List.pairwise_cons] at hpw
+      simp only [List.mem_cons] at hq
+      rcases hq with rfl | hq
+      · rw [h3 k (fun q' hq' => hpw.1 q' hq' k hkq), foldl_dictSet_lookup]
+        simp only at hkq
+        simp [hkq, hr]
+      · exact h4 hpw.2 q hq k hkq
+
+theorem nameToRowOfTree_spec (l2c : List (Nat × List Nat)) :
+    ∃ tbl, nameToRowOfTree l2c = .ok tbl ∧
+      (∀ p ∈ tbl, p.2 < (uniqueSorted (l2c.map (·.1))).length) ∧
+      (∀ k, (∀ q ∈ l2c, k ∉ q.2) → tbl.lookup k = none) ∧
+      (l2c.Pairwise (fun a b => ∀ c ∈ a.2, c ∉ b.2) →
+        ∀ q ∈ l2c, ∀ k ∈ q.2, tbl.lookup k = indexIn (uniqueSorted (l2c.map (·.1))) q.1) := by
+  obtain ⟨tbl, h1, h2, h3, h4⟩ := nameToRowOfTree_go_spec (uniqueSorted (l2c.map (·.1))) l2c []
+    (fun q hq => by rw [mem_uniqueSorted]; exact List.mem_map_of_mem hq) (by simp)
+  exact ⟨tbl, h1, h2, fun k hk => by rw [h3 k hk]; rfl, h4⟩
+
 end CTM.Stats
